@@ -1453,3 +1453,20 @@ t('twin-c19-memo-local', ['C19'],
                 elif p >= K * elem.h_t:
                     marked_space.append(elem)
 """))
+
+# ---- R-resolve: the analysed definition is the one that runs ---------------
+m('resolve-decorator', ['C01', 'C12'],
+  (SLX, "def spacetime_integrated_kernel_1(",
+   "def _memo(f):\n    return f\n\n\n@_memo\ndef spacetime_integrated_kernel_1("),
+  rule='R-resolve')
+m('resolve-monkeypatch', ['C02', 'C19'],
+  (M, "def Prolongate(", "Mesh.refine_time = Mesh.refine_space\n\n\ndef Prolongate("),
+  rule='R-resolve')
+m('resolve-setattr-computed', ['C02', 'C10'],
+  (M, "        self.parent = parent\n        self.children = []\n",
+   "        self.parent = parent\n        self.children = []\n        for k_, v_ in (vars(parent).items() if parent else ()):\n            if k_.startswith('_'):\n                setattr(self, k_, v_)\n"),
+  rule='R-resolve')
+m('resolve-eval', ['C06'],
+  (M, "        assert len(eta_sqr) == N\n        s_idx = list(reversed(np.argsort(eta_sqr)))",
+   "        assert len(eta_sqr) == N\n        theta = eval(repr(theta))\n        s_idx = list(reversed(np.argsort(eta_sqr)))"),
+  rule='R-resolve')
